@@ -1,6 +1,6 @@
 (* Props/C14.v — property C14: built-in reports state exactly the facts of the event stream (structure). *)
 From CV Require Import Model.Base Model.Events Model.Contract Model.Stats Model.StatsSpec Model.Reporters Model.ReportersSpec Proofs.BaseP Proofs.ReportersP Proofs.ReportersP2 Proofs.ReportersP3.
-From CV Require Proofs.ReportersP4.
+From CV Require Proofs.ReportersP4 Proofs.ReportersP5.
 From Coq Require Import Lia.
 
 (* terminal output: at most one line per event; exactly one for a step result, a failed hook, a parser error *)
@@ -182,4 +182,57 @@ Example C14_junit_whole_document_nonvacuous :
   Nat.leb 2 (length (attempt_outcomes ReportersP4.ex_stream)) = true /\
   (* K14c: the hypothesis is needed *)
   normalized ReportersP4.ex_skipped = true /\ c14_junit_ok ReportersP4.ex_skipped (junit_doc ReportersP4.ex_skipped) = false.
+Proof. vm_compute. repeat split; reflexivity. Qed.
+
+(* ==================================================================================================================
+   END TO END: every built-in reporter sits BEHIND Normalize. For every complete RAW stream obeying the Runner contract
+   (any interleaving the contract allows), the report computed from what Normalize forwards states exactly the facts of
+   the RAW stream. ReportersP5 transfers the whole-document theorems above along the three C11 theorems (lossless,
+   sequential order, per-attempt order) and a new one (pass-through events keep their order, for EVERY event list).
+   `raw_of es = map snd es`, `ns_of es = map snd (concat (nrun es))` — the latter is what Check/C14Check.v feeds the models.
+   ================================================================================================================== *)
+Theorem C14_terminal_end_to_end :
+  forall es, contract (ReportersP5.raw_of es) = true ->
+    c14_basic_ok (ReportersP5.raw_of es) (basic_lines (ReportersP5.ns_of es)) = true.
+Proof. exact ReportersP5.C14_basic_end_to_end. Qed.
+Print Assumptions C14_terminal_end_to_end.
+
+Theorem C14_json_end_to_end :
+  forall es, contract (ReportersP5.raw_of es) = true -> forall has_path,
+    fids_nonzero (ReportersP5.raw_of es) = true -> fids_have_path has_path (ReportersP5.raw_of es) = true ->
+    c14_json_ok (ReportersP5.raw_of es) (json_doc has_path (ReportersP5.ns_of es)) = true.
+Proof. exact ReportersP5.C14_json_end_to_end. Qed.
+Print Assumptions C14_json_end_to_end.
+
+(* the bracketing hypothesis is on the RAW stream, attempt by attempt: globally the raw stream need not be bracketed *)
+Theorem C14_libtest_end_to_end :
+  forall es, contract (ReportersP5.raw_of es) = true -> forall has_path,
+    (forall f, has_path f = true) -> has_pf (ReportersP5.raw_of es) = true ->
+    ReportersP5.attempts_bracketed (ReportersP5.raw_of es) = true ->
+    c14_libtest_ok (ReportersP5.raw_of es) (libtest_lines has_path (ReportersP5.ns_of es)) = true.
+Proof. exact ReportersP5.C14_libtest_end_to_end. Qed.
+Print Assumptions C14_libtest_end_to_end.
+
+(* `rule_of_scen_unique`: within a feature a scenario id occurs under one rule only (the specification keys attempts
+   without the rule; ReportersP5 shows by a witness that the hypothesis is needed) *)
+Theorem C14_junit_end_to_end :
+  forall es, contract (ReportersP5.raw_of es) = true ->
+    ReportersP5.rule_of_scen_unique (ReportersP5.raw_of es) = true ->
+    forallb (fun o => negb (snd o =? 2)) (attempt_outcomes (ReportersP5.raw_of es)) = true ->
+    c14_junit_ok (ReportersP5.raw_of es) (junit_doc (ReportersP5.ns_of es)) = true.
+Proof. exact ReportersP5.C14_junit_end_to_end. Qed.
+Print Assumptions C14_junit_end_to_end.
+
+(* pass-through events (run-Started, ParsingFinished, parser errors) keep their relative order through Normalize — for
+   EVERY event list, no contract needed *)
+Theorem C14_parser_errors_keep_their_order :
+  forall es, ReportersP4.perrs (ReportersP5.ns_of es) = ReportersP4.perrs (ReportersP5.raw_of es).
+Proof. exact ReportersP5.parse_errors_order_preserved. Qed.
+
+Example C14_end_to_end_nonvacuous :
+  contract (ReportersP5.raw_of ReportersP5.ex5) = true /\
+  normalized (ReportersP5.raw_of ReportersP5.ex5) = false /\
+  ReportersP5.attempts_bracketed (ReportersP5.raw_of ReportersP5.ex5) = true /\
+  steps_bracketed (ReportersP5.raw_of ReportersP5.ex5) = false /\
+  ReportersP5.rule_of_scen_unique (ReportersP5.raw_of ReportersP5.ex5) = true.
 Proof. vm_compute. repeat split; reflexivity. Qed.
